@@ -24,6 +24,7 @@ var ggufWriterSide = map[string]bool{
 // taintCtx is the per-function taint state (E4, AST level, flow-insensitive inside a
 // function, with dominating branch facts as sanitisers).
 type taintCtx struct {
+	aliasDepth int
 	c       *Ctx
 	f       *core.Func
 	g       *core.Graph
@@ -396,6 +397,28 @@ func (tc *taintCtx) boundsAt(e ast.Expr, loc core.Loc) bounds {
 			// accepts every count — the first version of this rule trusted it and missed the
 			// unbounded make in the array readers (repaired in /repo, see DESIGN §10)
 			_ = x
+		}
+	}
+	// a local that is a plain copy (or conversion) of another variable inherits the facts known of that
+	// variable here — `align := int64(alignment)` after `if alignment == 0 { return … }` — provided both
+	// are assigned exactly once, so the facts still describe the copied value
+	if id, isId := ast.Unparen(base).(*ast.Ident); isId && tc.aliasDepth < 2 {
+		if v, isV := info.Uses[id].(*types.Var); isV && !v.IsField() {
+			if rhs, _, cnt := singleDef(info, tc.f.Body, v); cnt == 1 && rhs != nil {
+				src := stripConv(info, rhs)
+				if sid, isS := ast.Unparen(src).(*ast.Ident); isS {
+					if sv, isSV := info.Uses[sid].(*types.Var); isSV && !sv.IsField() && sv != v {
+						if _, _, scnt := singleDef(info, tc.f.Body, sv); scnt <= 1 {
+							tc.aliasDepth++
+							rb := tc.boundsAt(rhs, loc)
+							tc.aliasDepth--
+							b.upper = b.upper || rb.upper
+							b.lower = b.lower || rb.lower
+							b.nonzero = b.nonzero || rb.nonzero
+						}
+					}
+				}
+			}
 		}
 	}
 	return b
